@@ -117,6 +117,11 @@ def pool():
 def line_alphabet():
     msgs = pool()
     eliot_lines = [json.dumps(msgs[0]).encode(), json.dumps(msgs[7]).encode(), json.dumps(msgs[-3]).encode()]
+    # what other producers of Eliot logs write: a UTF-8 signature in front of a line (text file opened with
+    # utf-8-sig), integers beyond 64 bits and the NaN/Infinity tokens (the standard library's JSON encoder)
+    eliot_lines.append(b"\xef\xbb\xbf" + json.dumps(msgs[7]).encode())
+    eliot_lines.append(b'{"task_uuid": "8c668cde-235b-4872-af4e-caea524bd1c0", "task_level": [1], "timestamp": 1443193754.5, '
+                       b'"message_type": "app:big", "total": 1180591620717411303424, "ratio": NaN, "limit": -Infinity}')
     m = msgs[1]
     lacking = []
     for k in HEADER:
@@ -132,9 +137,36 @@ def line_alphabet():
     )
 
 
+# values that are equal (or hash alike) without being the same JSON value: formatting one message must
+# not influence how a later one is rendered
+SEQ_VALUES = [0, 1, 1.0, 0.0, -0.0, True, False, "1", "", None, "true", [1], [True], [1.0]]
+
+
+def seq_message(v, i):
+    return {"task_uuid": "8c668cde-235b-4872-af4e-caea524bd1c0", "task_level": [i + 1], "timestamp": 1443193754.5,
+            "message_type": "app:seq", "value": v, "flag": v}
+
+
+def check_sequence(idxs, compact):
+    fmt = pp.compact_format if compact else pp.pretty_format
+    chk = check_compact if compact else check_pretty
+    for n, vi in enumerate(idxs):
+        msg = seq_message(SEQ_VALUES[vi], n)
+        try:
+            text = fmt(msg)
+        except Exception as e:
+            return [("sequence:raised", {"error": repr(e)})]
+        v = chk(msg, text)
+        if v:
+            return [("sequence:" + v[0][0], dict(v[0][1], formatted_before=[repr(SEQ_VALUES[j]) for j in idxs[:n]],
+                                                 value=repr(SEQ_VALUES[vi])))]
+    return []
+
+
 def units(tier):
     n = len(pool())
     out = [["fmt", i] for i in range(0, n, 40)]
+    out.append(["fmtseq"])
     alpha = line_alphabet()
     for first in range(len(alpha)):
         out.append(["stream", first])
@@ -147,6 +179,15 @@ def cases(unit, tier):
         for i in range(unit[1], min(unit[1] + 40, len(pool()))):
             yield ["fmt", i, 0]
             yield ["fmt", i, 1]
+    elif unit[0] == "fmtseq":
+        k = len(SEQ_VALUES)
+        for a in range(k):
+            for b in range(k):
+                for compact in (0, 1):
+                    yield ["fmtseq", [a, b], compact]
+                    if tier != "quick":
+                        for c in range(k):
+                            yield ["fmtseq", [a, b, c], compact]
     elif unit[0] == "stream":
         alpha = line_alphabet()
         L = BOUNDS(tier)["max_lines"]
@@ -401,6 +442,9 @@ def run_case(case):
                 return Result(outcome="raised", violations=[("compact:raised", {"error": repr(e), "msg": repr(msg)[:300]})])
             viol = check_compact(msg, text)
         return Result(outcome=text, nontrivial=len(msg) > 3, violations=[(s, dict(d, message=repr(msg)[:300])) for s, d in viol[:3]])
+    if case[0] == "fmtseq":
+        viol = check_sequence(case[1], case[2])
+        return Result(outcome=[case[1], case[2], len(viol)], nontrivial=True, violations=viol[:2])
     if case[0] == "stream":
         viol = check_stream(case[1], case[2])
         return Result(outcome=[case[1], case[2], len(viol)], violations=viol[:2])
